@@ -189,6 +189,12 @@ def gen_top(rng, n=None, kind=None, decorate=None, repeated=False, multi_res=Non
             blocks[i] = (k, ls[:cut])
             blocks.append((k, ls[cut:]))
             classes.add('repeated-section:' + k)
+        if blocks and rng.random() < 0.4:
+            # an occurrence without any content line (only its legend comment / blank / preprocessor lines) before the
+            # occurrence that lists the pairs
+            k0 = blocks[int(rng.integers(0, len(blocks)))][0]
+            blocks.insert(0, (k0, []))
+            classes.add('repeated-section:first-occurrence-empty')
         for (k, ls) in list(extras):
             if k == 'dihedrals' and rng.random() < 0.7:
                 extras.append(('dihedrals', [f'{nums[0]} {nums[2]} {nums[1]} {nums[3]} 2 0.0 100.0']))
